@@ -1,29 +1,44 @@
 #!/usr/bin/env python3
-"""run every stored seeded change against the check of its own property (and optionally others); writes seeded/MATRIX.json"""
+"""run every stored seeded change against the check of its own property (plus any extra checks given as
+`--also C01,C02`); writes seeded/MATRIX.json.  Seeds run four at a time, each in its own scratch copies."""
 import json
 import os
 import re
 import subprocess
 import sys
+from concurrent.futures import ThreadPoolExecutor
 
 V = "/verif"
-out = {}
+args = sys.argv[1:]
+also = []
+if "--also" in args:
+    i = args.index("--also")
+    also = args[i + 1].split(",")
+    del args[i:i + 2]
 names = sorted(n for n in os.listdir(f"{V}/seeded") if os.path.isdir(f"{V}/seeded/{n}") and not n.startswith("_"))
-only = sys.argv[1:]
-for n in names:
-    if only and n not in only:
-        continue
-    p = subprocess.run(f"{V}/tools/seedtest.sh {n}", shell=True, stdout=subprocess.PIPE, stderr=subprocess.STDOUT, text=True, timeout=1800)
-    viol = re.findall(r"VIOLATION property=(\S+) replay=(\S+)( no-failing-input-found)?", p.stdout)
-    summ = re.findall(r"^(C\d+) tier=\S+ seed=\d+: (\d+)/(\d+) obligations.*?(\d+) violations", p.stdout, flags=re.M)
-    keys = []
-    for prop, rp, nf in viol:
-        try:
-            keys.append(json.load(open(rp))["key"])
-        except Exception:
-            pass
-    out[n] = {"detected": bool(viol), "with_failing_input": any(not nf for _, _, nf in viol), "violation_keys": keys[:3],
-              "obligations": summ[0][1] + "/" + summ[0][2] if summ else None}
-    print(n, out[n], flush=True)
-    subprocess.run(f"find {V}/replays -name '*.json' -delete", shell=True)
-json.dump(out, open(f"{V}/seeded/MATRIX.json", "w"), indent=1, sort_keys=True)
+names = [n for n in names if not args or n in args]
+
+
+def one(n):
+    own = n.split("-")[0]
+    checks = [own] + [c for c in also if c != own]
+    p = subprocess.run([f"{V}/tools/seedtest.sh", n] + checks, stdout=subprocess.PIPE, stderr=subprocess.STDOUT, text=True, timeout=3600)
+    res = {}
+    for block in p.stdout.split("== seeded ")[1:]:
+        chk = block.split("vs check ")[1].split()[0]
+        viol = re.findall(r"VIOLATION property=(\S+) replay=(\S+)( no-failing-input-found)?", block)
+        summ = re.findall(r"^C\d+ tier=\S+ seed=\d+: (\d+)/(\d+) obligations", block, flags=re.M)
+        keys = re.findall(r"^REPLAYKEY (.*)$", block, flags=re.M)
+        res[chk] = {"detected": bool(viol), "with_failing_input": any(not nf for _, _, nf in viol), "violation_keys": keys[:3],
+                    "obligations": "/".join(summ[0]) if summ else None}
+    print(n, json.dumps(res), flush=True)
+    return n, res
+
+
+with ThreadPoolExecutor(4) as ex:
+    out = dict(ex.map(one, names))
+path = f"{V}/seeded/MATRIX.json"
+old = json.load(open(path)) if os.path.exists(path) else {}
+for n, res in out.items():
+    old.setdefault(n, {}).update(res)       # partial runs update the rows they re-tested
+json.dump(old, open(path, "w"), indent=1, sort_keys=True)
